@@ -215,7 +215,7 @@ func c08Next(versioned bool) func(g *prog.Gen, idx int, hist []*prog.Step) *prog
 					nums = append(nums, k)
 				}
 			}
-			switch g.R.Intn(8) {
+			switch g.R.Intn(7) {
 			case 0: // a subset
 				if len(nums) > 1 {
 					nums = nums[:1+g.R.Intn(len(nums))]
@@ -226,7 +226,7 @@ func c08Next(versioned bool) func(g *prog.Gen, idx int, hist []*prog.Step) *prog
 				}
 			case 2: // a part that was never uploaded
 				nums = append(nums, 9)
-			case 3: // a part listed twice in a row (with its correct ETag)
+			case 3, 4: // a part listed twice in a row (with its correct ETag)
 				if len(nums) > 0 {
 					i := g.R.Intn(len(nums))
 					nums = append(nums[:i+1], nums[i:]...)
